@@ -7,6 +7,8 @@ import (
 	"go/types"
 	"sort"
 	"strings"
+
+	"verif/checker/internal/load"
 )
 
 // switchKinds collects the reflect.Kind constants named in the case clauses of the
@@ -94,7 +96,7 @@ func CheckC11(c *Ctx) {
 	for _, f := range hp.Syntax {
 		ast.Inspect(f, func(n ast.Node) bool {
 			vs, ok := n.(*ast.ValueSpec)
-			if !ok || len(vs.Names) != 1 || vs.Names[0].Name != "kindToBits" || len(vs.Values) != 1 {
+			if !ok || len(vs.Names) != 1 || len(vs.Values) != 1 || !isKindBitsTable(info, vs.Names[0]) {
 				return true
 			}
 			bitsPos = vs.Pos()
@@ -143,7 +145,7 @@ func CheckC11(c *Ctx) {
 		found := false
 		ast.Inspect(n, func(m ast.Node) bool {
 			if ix, ok := m.(*ast.IndexExpr); ok {
-				if id, ok := ix.X.(*ast.Ident); ok && id.Name == "kindToBits" {
+				if id, ok := ix.X.(*ast.Ident); ok && isKindBitsTable(info, id) {
 					found = true
 				}
 			}
@@ -195,11 +197,21 @@ func CheckC11(c *Ctx) {
 		})
 		return good
 	}
-	tset := c.fn("helper", "", "setReflectValueFromTime")
+	tset := c.anchorVia("helper", "", "setReflectValueFromTime", set, func(fi *load.FuncInfo) bool {
+		// the helper of setReflectValue that parses a time
+		parses := false
+		ast.Inspect(fi.Decl.Body, func(n ast.Node) bool {
+			if call, ok := n.(*ast.CallExpr); ok && calleeName(fi.Pkg.TypesInfo, call) == "time.Parse" {
+				parses = true
+			}
+			return true
+		})
+		return parses
+	})
 	if tset != nil {
 		g1 := layoutArgOK(get.Decl, "time.(Time).Format", 0, "format")
 		g2 := layoutArgOK(tset.Decl, "time.Parse", 0, "format")
-		g3 := layoutArgOK(set.Decl, "github.com/cinar/indicator/v2/helper.setReflectValueFromTime", 2, "format")
+		g3 := layoutArgOK(set.Decl, "github.com/cinar/indicator/v2/helper."+tset.Fn.Name(), 2, "format")
 		run.Oblige(g1 && g2 && g3)
 		if !(g1 && g2 && g3) {
 			c.violate("codec-agreement/time", "helper.getReflectValue/setReflectValueFromTime", "layout", get.Decl.Pos(), "time values are not formatted and parsed with the same `format` value")
@@ -207,7 +219,7 @@ func CheckC11(c *Ctx) {
 	}
 	// csv.go call sites pass column.Format on both sides
 	rd := c.fn("helper", "Csv", "ReadFromReader")
-	wr := c.fn("helper", "Csv", "writeToWriter")
+	wr := c.csvRowWriter()
 	if rd != nil && wr != nil {
 		passesColumnFormat := func(fd *ast.FuncDecl, fn string, idx int) bool {
 			good := false
@@ -243,7 +255,21 @@ func CheckC11(c *Ctx) {
 			}
 			return true
 		})
-		upd := c.fn("helper", "Csv", "updateColumnIndexes")
+		upd := c.anchorVia("helper", "Csv", "updateColumnIndexes", rd, func(fi *load.FuncInfo) bool {
+			// the method of the reader that assigns ColumnIndex
+			assigns := false
+			ast.Inspect(fi.Decl.Body, func(n ast.Node) bool {
+				if as, ok := n.(*ast.AssignStmt); ok {
+					for _, l := range as.Lhs {
+						if sel, ok := l.(*ast.SelectorExpr); ok && sel.Sel.Name == "ColumnIndex" {
+							assigns = true
+						}
+					}
+				}
+				return true
+			})
+			return assigns
+		})
 		mapOK := false
 		if upd != nil {
 			ast.Inspect(upd.Decl.Body, func(n ast.Node) bool {
@@ -345,19 +371,27 @@ func CheckC11(c *Ctx) {
 // earlier) no longer sits under its header.
 func (c *Ctx) columnOrder(info *types.Info) {
 	run := c.Run
-	for _, mname := range []string{"writeToWriter", "writeHeaderToCsvWriter"} {
-		fi := c.fn("helper", "Csv", mname)
+	rowWriter := c.csvRowWriter()
+	var headerWriter *load.FuncInfo
+	if rowWriter != nil {
+		headerWriter = c.anchorVia("helper", "Csv", "writeHeaderToCsvWriter", rowWriter, func(fi *load.FuncInfo) bool {
+			sig := fi.Fn.Type().(*types.Signature)
+			return sig.Params().Len() == 1 && strings.HasSuffix(sig.Params().At(0).Type().String(), "csv.Writer")
+		})
+	}
+	for _, fi := range []*load.FuncInfo{rowWriter, headerWriter} {
 		if fi == nil {
 			continue
 		}
+		mname := fi.Fn.Name()
 		found, bad := 0, ""
 		ast.Inspect(fi.Decl.Body, func(n ast.Node) bool {
 			rs, ok := n.(*ast.RangeStmt)
 			if !ok {
 				return true
 			}
-			sel, ok := rs.X.(*ast.SelectorExpr)
-			if !ok || sel.Sel.Name != "columns" {
+			// the loop over the column descriptors (a slice of structs that carry a Header)
+			if !isColumnSlice(info.TypeOf(rs.X)) {
 				return true
 			}
 			var keyObj, valObj types.Object
@@ -548,4 +582,58 @@ func (c *Ctx) jsonDelims(info *types.Info) {
 	if !sepOK {
 		c.violate("codec-agreement/json", "helper.ChanToJSON", "separator", enc.Decl.Pos(), "the element separator is no longer written exactly between elements")
 	}
+}
+
+// isKindBitsTable: the package-level table from reflect.Kind to a bit size (pinned name kindToBits).
+func isKindBitsTable(info *types.Info, id *ast.Ident) bool {
+	obj := info.ObjectOf(id)
+	v, ok := obj.(*types.Var)
+	if !ok || v.Parent() != v.Pkg().Scope() {
+		return false
+	}
+	m, ok := v.Type().Underlying().(*types.Map)
+	if !ok {
+		return false
+	}
+	b, ok := m.Elem().Underlying().(*types.Basic)
+	return ok && b.Info()&types.IsInteger != 0 && m.Key().String() == "reflect.Kind"
+}
+
+// csvRowWriter: the unexported method behind WriteToFile/AppendToFile that writes the rows
+// (pinned name writeToWriter): the one taking an io.Writer.
+func (c *Ctx) csvRowWriter() *load.FuncInfo {
+	if fi := c.P.Method("helper", "Csv", "writeToWriter"); fi != nil {
+		return fi
+	}
+	entry := c.P.Method("helper", "Csv", "WriteToFile")
+	return c.anchorVia("helper", "Csv", "writeToWriter", entry, func(fi *load.FuncInfo) bool {
+		sig := fi.Fn.Type().(*types.Signature)
+		for i := 0; i < sig.Params().Len(); i++ {
+			if sig.Params().At(i).Type().String() == "io.Writer" {
+				return true
+			}
+		}
+		return false
+	})
+}
+
+// isColumnSlice: a slice of column descriptors (structs with a Header field).
+func isColumnSlice(t types.Type) bool {
+	if t == nil {
+		return false
+	}
+	sl, ok := t.Underlying().(*types.Slice)
+	if !ok {
+		return false
+	}
+	st, ok := sl.Elem().Underlying().(*types.Struct)
+	if !ok {
+		return false
+	}
+	for i := 0; i < st.NumFields(); i++ {
+		if st.Field(i).Name() == "Header" {
+			return true
+		}
+	}
+	return false
 }
